@@ -572,10 +572,12 @@ class ChainedDiscretizer(BaseDiscretizer):
                         f"{self.str_nan}' (policy unknown_handling='drop')"
                     )
 
+                    # adding str_nan to the order (once: appending it anew would reset its group)
+                    if self.str_nan not in order:
+                        order.append(self.str_nan)
                     # adding unknown to the order
                     for unknown_value in unknown_values:
                         order.append(unknown_value)
-                        order.append(self.str_nan)
                         # grouping unknown value with str_nan
                         order.group(unknown_value, self.str_nan)
 
